@@ -103,12 +103,13 @@ Record ecfg := mkECfg {
 Definition cares (c : ccfg) (p : json) : bool :=
   has_finalizer p (finalizer_name c) || sel_matches (p_selector c) (get_labels p).
 
-(* enqueueParentObject: the filter runs only for *unstructured.Unstructured;
-   common.KeyFunc = DeletionHandlingMetaNamespaceKeyFunc returns a tombstone's Key *)
+(* enqueueParentObject: a tombstone is unwrapped first and the object it carries
+   goes through the same selector/finalizer filter; common.KeyFunc =
+   DeletionHandlingMetaNamespaceKeyFunc returns a tombstone's Key *)
 Definition enqueue_parent (c : ecfg) (w : wobj) : list string :=
   match w with
   | WObj o => if cares (e_cc c) o then [key_of o] else []
-  | WTomb k _ => [k]
+  | WTomb k o => if cares (e_cc c) o then [k] else []
   end.
 
 (* updateParentObject *)
@@ -248,10 +249,11 @@ Definition split_parent_queue_key (k : string) : option (string * string * strin
       end
   end.
 
+(* enqueueParentObject: tombstones are unwrapped before the filter, as in the composite *)
 Definition d_enqueue_parent (c : dcfg) (w : wobj) : list string :=
   match w with
   | WObj o => if d_cares c o then [d_parent_queue_key w] else []
-  | WTomb _ _ => [d_parent_queue_key w]
+  | WTomb _ o => if d_cares c o then [d_parent_queue_key w] else []
   end.
 
 (* updateParentObject: some rule for the OLD object's apiVersion/kind has ignoreStatusChanges *)
